@@ -322,7 +322,9 @@ func realLeak(raw json.RawMessage) any {
 			got, ok := p.Secrets[s.Name]
 			if !ok {
 				add("secret-missing", "secret %q is not on the loaded project", s.Name)
-			} else if set && got.Content != want {
+			} else if s.Var == "" && got.Content != "" {
+				add("secret-value-invented:empty-variable-name", "Secrets[%q].Content = %q although its source variable is the empty name", s.Name, got.Content)
+			} else if s.Var != "" && set && got.Content != want {
 				add("secret-value-unavailable", "Secrets[%q].Content = %q, environment[%q] = %q", s.Name, got.Content, s.Var, want)
 			} else if !set && got.Content != "" {
 				add("secret-value-invented", "Secrets[%q].Content = %q but %q is unset", s.Name, got.Content, s.Var)
@@ -339,7 +341,10 @@ func realLeak(raw json.RawMessage) any {
 			got, ok := p.Configs[c.Name]
 			if !ok {
 				add("config-missing", "config %q is not on the loaded project", c.Name)
-			} else if set && got.Content != want {
+			} else if c.Var == "" && got.Content != "" {
+				// no variable has an empty name: nothing is resolved (fix of leak:config:empty-variable-name)
+				add("config-value-invented:empty-variable-name", "Configs[%q].Content = %q although its source variable is the empty name", c.Name, got.Content)
+			} else if c.Var != "" && set && got.Content != want {
 				add("config-value-unavailable", "Configs[%q].Content = %q, environment[%q] = %q", c.Name, got.Content, c.Var, want)
 			}
 		}
